@@ -59,7 +59,28 @@ type jsonOpsMsg struct {
 	First []jsonOp `json:"first"`
 }
 
-func idOf(class string) (string, bool) {
+// badIDs realises the abstract class "badChar": every ASCII character outside [A-Za-z0-9_-] (control characters
+// included) at the start, in the middle and at the end of an otherwise valid id, plus some non-ASCII letters.
+func badIDs() []string {
+	var out []string
+	for ch := 0; ch < 128; ch++ {
+		c := byte(ch)
+		if c == '_' || c == '-' || (c >= '0' && c <= '9') || (c >= 'a' && c <= 'z') || (c >= 'A' && c <= 'Z') {
+			continue
+		}
+		out = append(out, "a"+string(rune(c))+"b", string(rune(c))+"a", "a"+string(rune(c)))
+	}
+	for _, u := range []string{"\u00e9", "\u0430", "\u4e2d", "\uff41", "\u200b", "\U0001f600"} {
+		out = append(out, "a"+u+"b", u)
+	}
+	return out
+}
+
+func usesBadChar(c *ruleCase) bool {
+	return c.P.ID == "badChar" || c.P.Ids == "badChar" || c.P.Inner == "badKey"
+}
+
+func idOf(class, bad string) (string, bool) {
 	switch class {
 	case "len1":
 		return "a", true
@@ -70,7 +91,7 @@ func idOf(class string) (string, bool) {
 	case "empty":
 		return "", true
 	case "badChar":
-		return "a b/c", true
+		return bad, true
 	}
 	return "", false // missing
 }
@@ -149,8 +170,8 @@ func svcEntry(c *ruleCase, id string, hasID bool) map[string]interface{} {
 }
 
 // rulePatch concretises a PatchRules case; returns the patch JSON and its action name.
-func rulePatch(c *ruleCase) (map[string]interface{}, string) {
-	id, hasID := idOf(c.P.ID)
+func rulePatch(c *ruleCase, bad string) (map[string]interface{}, string) {
+	id, hasID := idOf(c.P.ID, bad)
 	entries := func(mk func(*ruleCase, string, bool) map[string]interface{}) []interface{} {
 		l := []interface{}{mk(c, id, hasID)}
 		switch c.P.Second {
@@ -167,7 +188,7 @@ func rulePatch(c *ruleCase) (map[string]interface{}, string) {
 	case "addSvcs":
 		return map[string]interface{}{"action": "add-services", "services": entries(svcEntry)}, "add-services"
 	case "removeKeys", "removeSvcs":
-		ids := map[string][]interface{}{"ok": {"a", "b"}, "empty": {}, "badChar": {"a b"}, "len51": {strings.Repeat("k", 51)}, "len50": {strings.Repeat("k", 50)}}[c.P.Ids]
+		ids := map[string][]interface{}{"ok": {"a", "b"}, "empty": {}, "badChar": {"a", bad}, "len51": {strings.Repeat("k", 51)}, "len50": {strings.Repeat("k", 50)}}[c.P.Ids]
 		if c.P.Kind == "removeKeys" {
 			return map[string]interface{}{"action": "remove-public-keys", "ids": ids}, "remove-public-keys"
 		}
@@ -184,7 +205,7 @@ func rulePatch(c *ruleCase) (map[string]interface{}, string) {
 		case "extraMember":
 			doc["other"] = 1
 		case "badKey":
-			doc["publicKeys"] = []interface{}{keyEntry(&base, "a b", true)}
+			doc["publicKeys"] = []interface{}{keyEntry(&base, bad, true)}
 		case "badSvc":
 			b2 := base
 			b2.P.Stype = "len31"
@@ -445,9 +466,26 @@ func C18(c *ev.Ctx) {
 	acceptedMeta := map[int]string{}
 	jobID := 0
 	var nt, stricter int64
+	bads := badIDs()
+	var nBad int64
+	type inst struct {
+		cs  *ruleCase
+		bad string
+	}
+	var insts []inst
 	for i := range cases {
-		cs := &cases[i]
-		p, action := rulePatch(cs)
+		if usesBadChar(&cases[i]) {
+			for _, b := range bads {
+				insts = append(insts, inst{&cases[i], b})
+				nBad++
+			}
+		} else {
+			insts = append(insts, inst{&cases[i], ""})
+		}
+	}
+	for i := range insts {
+		cs := insts[i].cs
+		p, action := rulePatch(cs, insts[i].bad)
 		enabled := allPatchActions
 		if !cs.P.Enabled {
 			enabled = nil
@@ -568,7 +606,8 @@ func C18(c *ev.Ctx) {
 			}
 		}
 	}
-	c.Cov.TracesValidatedAgainstImpl = int64(len(cases)) + jsonCases + applied
+	c.Cov.TracesValidatedAgainstImpl = int64(len(insts)) + jsonCases + applied
+	c.Cov.Extra["bad_character_id_instances"] = nBad
 	c.Cov.Evaluations = c.Cov.TracesValidatedAgainstImpl
 	c.Cov.DistinctNontrivial = nt + jsonCases
 	c.Cov.Exhaustive = true
@@ -577,6 +616,6 @@ func C18(c *ev.Ctx) {
 	c.Cov.Extra["accepted_patch_applications"] = applied
 	c.Cov.Extra["applications_returning_a_document"] = applyOK
 	c.Cov.Extra["valid_cases_rejected_by_validator"] = stricter
-	c.Cov.Rule = "PatchRules.tla: baseline of each patch kind + every combination of <= MaxDev rule deviations (id class, duplicate id, key type x purposes, key material, unknown member, missing type, service type length, endpoint forms, remove-id / URI list classes, replace document contents, action enabled); verdict: the real ValidateDelta must not accept a case Valid() rejects. JSON patches: all single RFC 6902 operations over 7 ops x 17 path classes x 7 from classes x 3 value classes (thorough: preceded by 5 state-setting first operations). Every accepted patch is applied by the real composer to 6 small documents in a crash-isolated child process: no panic / crash / hang, and an accepted JSON patch must leave the public-key and service sections untouched."
+	c.Cov.Rule = "PatchRules.tla: baseline of each patch kind + every combination of <= MaxDev rule deviations (id class - the class badChar is realised as every ASCII character outside [A-Za-z0-9_-] at the start / middle / end of an id plus non-ASCII letters -, duplicate id, key type x purposes, key material, unknown member, missing type, service type length, endpoint forms, remove-id / URI list classes, replace document contents, action enabled); verdict: the real ValidateDelta must not accept a case Valid() rejects. JSON patches: all single RFC 6902 operations over 7 ops x 17 path classes x 7 from classes x 3 value classes (thorough: preceded by 5 state-setting first operations). Every accepted patch is applied by the real composer to 6 small documents in a crash-isolated child process: no panic / crash / hang, and an accepted JSON patch must leave the public-key and service sections untouched."
 	c.Finish("model_checking")
 }
